@@ -3,6 +3,7 @@
   the Python harness and the driver).  Tokens are space separated; `-` is None.
 -/
 import Redress.Model.World
+import Redress.Model.Signature
 
 namespace Redress.Wire
 
@@ -165,8 +166,21 @@ def skeyOf? (s : String) : Option SKey :=
   else if s.startsWith "cls:" then (EClass.ofName? (s.drop 4).toString).map SKey.cls
   else none
 
-def skindOf? : String → Option SKind
-  | "ctx" => some .ctx | "legacy" => some .legacy | _ => none
+/-- `r.o.v.kr.ko.vk` -/
+def sigOf? (s : String) : Option Sig :=
+  match s.splitOn "." with
+  | [r, o, v, kr, ko, vk] => do
+    pure { req := ← r.toNat?, opt := ← o.toNat?, varargs := v == "1", kwReq := ← kr.toNat?,
+           kwOpt := ← ko.toNat?, varkw := vk == "1" }
+  | _ => none
+
+/-- a strategy's kind: given outright (`ctx` / `legacy`) or as the shape of its signature
+    (`sig=r.o.v.kr.ko.vk`), from which `normalizeSig` decides as `_normalize_strategy` does -/
+def skindOf? (s : String) : Option SKind :=
+  match s with
+  | "ctx" => some .ctx
+  | "legacy" => some .legacy
+  | _ => if s.startsWith "sig=" then (sigOf? (s.drop 4).toString).bind normalizeSig else none
 
 def soutOf? (s : String) : Option SOut :=
   match s with
